@@ -146,6 +146,9 @@ func (m *monC10) Quiescent(td *TD, p Pending) *Viol {
 	return nil
 }
 
+// End: the table has left the hand (standby / pausing): every action must be refused there as well.
+func (m *monC10) End(td *TD) *Viol { return m.Quiescent(td, td.pending()) }
+
 func statusClass(t *pt.Table) string {
 	if t.State.Status != pt.TableStateStatus_TableGamePlaying {
 		return string(t.State.Status)
